@@ -472,6 +472,11 @@ long __wrap_syscall(long nr, ...)
 				errno = EINTR;
 				return -1;
 			}
+			if (r < vp_fault.wait_spurious + vp_fault.wait_eintr + vp_fault.wait_enosys) {
+				FS(inj_wait_enosys);
+				errno = ENOSYS;
+				return -1;
+			}
 			long ret = __real_syscall(nr, a1, a2, a3, a4, a5, a6);
 			if (ret == 0)
 				FS(futex_wait_blocked);
@@ -813,14 +818,15 @@ static int write_results(int exit_code_hint)
 		json_str(f, vp_point_names[p] ? vp_point_names[p] : "?");
 		fprintf(f, ": %llu", (unsigned long long) h);
 	}
-	fprintf(f, "},\n \"faults\": {\"futex_wait\": %llu, \"futex_wait_blocked\": %llu, \"futex_wake\": %llu, \"wake_woke\": %llu, \"inj_spurious\": %llu, \"inj_eintr\": %llu, \"inj_enosys\": %llu, \"inj_wake_delay\": %llu, \"membarrier\": %llu, \"membarrier_denied\": %llu, \"chaos_signals_sent\": %llu, \"chaos_signals_handled\": %llu, \"inj_pthread_create_eagain\": %llu},\n",
+	fprintf(f, "},\n \"faults\": {\"futex_wait\": %llu, \"futex_wait_blocked\": %llu, \"futex_wake\": %llu, \"wake_woke\": %llu, \"inj_spurious\": %llu, \"inj_eintr\": %llu, \"inj_enosys\": %llu, \"inj_wake_delay\": %llu, \"membarrier\": %llu, \"membarrier_denied\": %llu, \"chaos_signals_sent\": %llu, \"chaos_signals_handled\": %llu, \"inj_pthread_create_eagain\": %llu, \"inj_wait_enosys\": %llu},\n",
 		(unsigned long long) fs.futex_wait, (unsigned long long) fs.futex_wait_blocked,
 		(unsigned long long) fs.futex_wake, (unsigned long long) fs.wake_woke,
 		(unsigned long long) fs.inj_spurious, (unsigned long long) fs.inj_eintr,
 		(unsigned long long) fs.inj_enosys, (unsigned long long) fs.inj_wake_delay,
 		(unsigned long long) fs.membarrier, (unsigned long long) fs.membarrier_denied,
 		(unsigned long long) vp_chaos_signals_sent, (unsigned long long) vp_chaos_signals_handled,
-		(unsigned long long) __atomic_load_n(&vp_create_fail_injected, __ATOMIC_RELAXED));
+		(unsigned long long) __atomic_load_n(&vp_create_fail_injected, __ATOMIC_RELAXED),
+		(unsigned long long) fs.inj_wait_enosys);
 	fprintf(f, " \"signatures\": [");
 	first = 1;
 	for (int i = 0; i < VP_MAX_SIG; i++) {
@@ -1175,6 +1181,7 @@ void vp_init(int argc, char **argv, const char *harness_name)
 	vp_fault.wait_eintr = (uint32_t) (vp_arg_double("f-eintr", 0) * (1 << 20));
 	vp_fault.wake_delay = (uint32_t) (vp_arg_double("f-wake-delay", 0) * (1 << 20));
 	vp_fault.futex_enosys = (int) vp_arg_long("f-enosys", 0);
+	vp_fault.wait_enosys = (uint32_t) (vp_arg_double("f-enosys-wait", 0) * (1 << 20));
 	vp_create_fail_prob = (uint32_t) (vp_arg_double("f-create-eagain", 0) * (1 << 20));
 	(void) vp_self();
 }
